@@ -196,14 +196,21 @@ CLAIMS["C07"] = dict(
    design="6/C07", technique="Coq line-table theorems (instances of C14) + token-edit sweep through both entry points",
    note="Known findings: backslash-only continuation line (KeyError, string mode); bytes/str literal concatenation (TypeError).")
 CLAIMS["C09"] = dict(
-   text="Three ties plus a sweep. K-read: the runtime model (Runtime/Exec.v) running the generator model's IR of "
-        "metagrammar.gram, with the meta-grammar's actions evaluated by the MiniPy model, builds inside Coq the same grammar "
-        "value as the shipped GrammarParser (rules, alternatives, items, operators, names, types, actions, metas, memo) on "
-        "every explored text and on its printed form; K-print (C18's printer model) equals str() for both SIMPLE_STR "
-        "settings; on the implementation every text is read, printed with SIMPLE_STR off, re-read and compared modulo "
-        "redundant parentheses. Coq (Props/C09.v): the printer writes the postfix optional only for atoms, for every item.",
-   design="6/C09", technique="Coq runtime+generator+MiniPy model of the meta-parser evaluated in Coq against GrammarParser + printer model + round-trip sweep",
-   note="Partial: the universal round-trip theorem (read(print g) = g modulo parentheses for every readable g) is not proved.")
+   text="Coq theorem C09_print_then_read (Props/C09.v), for ALL grammars of the readable shapes (every operator at any "
+        "nesting depth, named/typed items, actions, typed/memo rules, both rule layouts): the reference reader "
+        "(Meta/Reader.v, the PEG rules of metagrammar.gram transcribed with their cuts and ordered choice) applied to the "
+        "token sequence of the full rendering (Meta/PrintToks.v, using Grammar/Printer.v's own space-based layout "
+        "decisions) returns exactly rt_grammar g = g plus the parentheses/brackets the printer adds, and strip_rules "
+        "(redundant parentheses removed) is unchanged; hypotheses are decidable (Meta/Shape.v) and an Example using every "
+        "operator satisfies them. Ties, re-checked every run by evaluation inside Coq: reference reader = shipped "
+        "GrammarParser on every explored text and on its rendering (structure incl. names, types, actions, memo, metas); "
+        "token printer = real tokens of the real str(); inside the hypotheses the implementation's re-read grammar = "
+        "rt_grammar; K-read: the runtime+generator+MiniPy models running metagrammar.gram's IR build the same grammar "
+        "value; plus the print/re-read sweep on the implementation (random grammars, layouts, the repository's .gram files).",
+   design="6/C09", technique="Coq proof of the printer/reader round trip by induction on the grammar AST + reference-reader and token-printer correspondences evaluated in Coq + round-trip sweep",
+   note="The lexical step (text <-> tokens) is the host tokenizer, covered by correspondence, not by the theorem; action "
+        "texts with f-strings are outside the theorem's hypotheses. Known findings: duplicate rule definitions silently "
+        "dropped (python.gram's `fstring`); NAMEs spelled like layout token kinds confuse the reader in two contrived texts.")
 NOT_YET = {}
 NOT_APPLICABLE = {
  "C06": "equates the generated parser with CPython's own C parser/ast.parse, for which no executable model exists "
